@@ -13,7 +13,7 @@ RULE = ("random controller projects (atomic tags of every Logix type, 1-3 dim ar
         "configurations {fw 16,17,18,20,21,24,32, Micro800 at fw 12 / 21 / 22 (empty route only)} x {4000-byte, 500-byte connection} x target "
         "reply policy {full, random, 1-8 byte fragments}; every fourth project is read through a second driver (init_tags=False) that shares the "
         "first one's tag list; every fifth project a second driver in the same process talks to ANOTHER controller (other project, other firmware) holding tags of "
-        "the same names with other types / instance ids, calls interleaved - each driver answers for its own controller; each read() call carries 1-25 requests in the documented syntax (base, [i..], {n}, [i]{n}, member paths through arrays of "
+        "the same names with other types / instance ids and a structure type of the same NAME that is 8 bytes in one controller and 120 in the other (`sized_q{4}` / `sized_q{100}` read in turn), calls interleaved - each driver answers for its own controller; each read() call carries 1-25 requests in the documented syntax (base, [i..], {n}, [i]{n}, member paths through arrays of "
         "structs, .bit, BOOL-array [i] / {n} / [i]{n}, BOOL members, strings, whole structs, duplicates) with element counts aimed at the "
         "byte windows around the connection size; every returned Tag is compared with the reference interpretation of the target's memory "
         "(value, type string, name, truthiness). distinct = (request shape, element type kind, transport path taken per target log, config) evaluated")
@@ -99,6 +99,13 @@ def run(ctx):
                 # a BOOL array of more than 65535 BOOLs (2100 DWORDs): element counts and indices beyond 16 bits are legal for it
                 project_ = rpj.generate_project(rng, size, fw=cfg[1], micro800=cfg[2])
                 bigbits = rpj.add_array_tag(project_, rng, "BigBits_q", "DWORD", 2100)
+            sized_a = None
+            if pi % 5 == 3 and not cfg[2]:
+                # for the two-controller block below: a structure type that the OTHER controller also defines, under the same name,
+                # with another size
+                if project_ is None:
+                    project_ = rpj.generate_project(rng, "medium" if size == "fixture" else size, fw=cfg[1], micro800=False)
+                _, sized_a = rpj.add_struct_tag(project_, rng, "Sized_q", [("a", "INT", 0), ("b", "DINT", 0)], "sized_q", dims=(4,))
             sc = LogixScenario(rng, size=size, config=cfg, project=project_)
             res.count("projects")
             res.count(f"config:{sc.label}")
@@ -174,16 +181,34 @@ def run(ctx):
                 cfgB = rng.choice([c for c in CONFIGS if not c[2] and c[0] != cfg[0]])
                 prjB = rpj.generate_project(rng, "small", fw=cfgB[1], micro800=False)
                 shared = []
-                plain = [t for t in sc.prj.user_tags(with_programs=False) if t.kind == "user" and ":" not in t.name]
+                plain = [t for t in sc.prj.user_tags(with_programs=False) if t.kind == "user" and ":" not in t.name and t.name != "sized_q"]
                 for t in rng.sample(plain, min(4, len(plain))):
                     if prjB.find(t.name) is None:
                         shared.append(rpj.add_array_tag(prjB, rng, t.name, rng.choice(["INT", "REAL", "LINT", "DINT"]), rng.choice([3, 10, 50])))
+                sized_b = None
+                if sized_a is not None:
+                    # the same type NAME, laid out differently and 15 times larger: 100 elements are far beyond either connection size
+                    _, sized_b = rpj.add_struct_tag(prjB, rng, "Sized_q", [("a", "INT", 0), ("b", "DINT", 0), ("pad", "DINT", 27), ("z", "REAL", 0)], "sized_q", dims=(100,))
                 scB = LogixScenario(rng, config=cfgB, project=prjB, bench=sc.b, host="192.168.1.237")
                 res.count("two-controller-scenarios")
                 if not scB.ok():
                     res.ev()
                     res.violation("two-plc:open-failed", f"a second LogixDriver for another controller ({scB.label}) failed to open while the first ({sc.label}) is open: {scB.opened!r:.200}", None)
                 else:
+                    if sized_a is not None and sized_b is not None:
+                        # sizes are per controller: the small definition first, then the large one through the other driver (what a
+                        # driver learnt about "Sized_q" may not be found again under that name by the other)
+                        for cur, tg_ in ((sc, sized_a), (scB, sized_b), (sc, sized_a)):
+                            n_ = tg_.elements
+                            rq = logixreq.Req(f"sized_q{{{n_}}}", tg_, tg_.dtype, 0, n_, True, "value", avail=n_, shape="[]{n}")
+                            st, out = cur.b.call("read", cur.drv.read, rq.text)
+                            res.seen("two-plc-same-type-name", cur is scB)
+                            if st != "ok":
+                                res.ev()
+                                res.violation(f"two-plc:read-raises:{type(out).__name__}", f"read({rq.text!r}) raised {out!r:.200} ({cur.label}, second controller {scB.label})", None)
+                                continue
+                            check_read_call(res, cur, [rq], out, key_prefix="two-plc:")
+                            cur.dev.finish_transfers()
                     for ci in range(16):
                         cur = rng.choice([sc, scB])
                         reqs = [logixreq.gen_request(cur.prj, rng, cur.conn_size) for _ in range(rng.choice([1, 2, 4]))]
